@@ -143,6 +143,10 @@ def leaf_top(rng, leaf, n_ids, strong_cov=False):
     elif k == 'T':
         base = np.concatenate([rng.uniform(0.2, 0.8, d),
                                rng.uniform(0.3, 0.6, d)])
+        if rng.random() < 0.1:
+            # truncation far in the upper tail of the untruncated Gaussian:
+            # any real mean is in the support
+            base[:d] = -base[d:] * rng.uniform(4, 9, d)
     elif k == 'P':
         base = rng.uniform(0.3, 0.8, d)
     else:
